@@ -37,8 +37,9 @@
        throw again (C02_vm_runs_throw, C02_ref_runs_throw; machine lemmas in VM/SimThrowOps.v).
        scopeName / breakOut are covered the same way (C02_vm_runs_breakout, C02_ref_runs_breakout; VM/SimBreakOps.v): scope names are
        part of the matched state, breakOut at statement level through call / if-then(-else) ends exactly the named scope.
-       NOT covered by the simulation: switch,
-       exitWith inside an operand, a throw or breakOut inside an operand or out of a loop body, waitUntil, nil operands, a while loop
+       switch - case - default is covered too (C02_switch_body_vm, C02_switch_body_ref and the constructors ZSwitchVal, ZSwitchNone, ZSwitchRun): fall-through
+       labels, first match wins, default; the case values are pure expressions.
+       NOT covered by the simulation: exitWith inside an operand or in a block chosen by switch, a throw or breakOut inside an operand or out of a loop body, waitUntil, nil operands, a while loop
        with an empty body or a non-boolean condition - for these the
        per-construct theorems below and the program-level differential are the evidence;
      - the compiler emits the post-order of the source (code blocks, binary operators, arrays);
@@ -53,7 +54,7 @@
    Properties_C05 (one value per scope, regions). *)
 From Coq Require Import String Ascii.
 From Coq Require Import ZArith List Bool Lia.
-From SqfVerif Require Import Gen.DiagCodes Gen.Overloads VM.VmDefs VM.VmExec VM.RefSem VM.C02Proofs VM.SimDefs VM.SimProofs VM.SimBlock VM.SimCtl VM.SimRun VM.SimThrowOps VM.SimBreakOps VM.SimExit VM.SimProg.
+From SqfVerif Require Import Gen.DiagCodes Gen.Overloads VM.VmDefs VM.VmExec VM.RefSem VM.C02Proofs VM.SimDefs VM.SimProofs VM.SimBlock VM.SimCtl VM.SimRun VM.SimThrowOps VM.SimBreakOps VM.SimSwitchOps VM.SimExit VM.SimProg.
 Import ListNotations.
 Local Open Scope string_scope.
 Local Open Scope list_scope.
@@ -236,7 +237,7 @@ Proof.
     + split; [|reflexivity]. cbn. constructor; [|constructor]. split; [intros k; reflexivity|split; [reflexivity|split; reflexivity]].
     + split; [reflexivity|]. exists []. split; reflexivity.
   - eexists. eapply PBCons; [eapply PSLocal; [discriminate|eapply PNum]|].
-    eapply PBCons; [eapply PSAssign; [discriminate|]|].
+    eapply PBCons; [eapply PSAssign; [discriminate|reflexivity|]|].
     + eapply PArr. eapply PCons; [eapply PVarL; reflexivity|]. eapply PCons; [|eapply PNil].
       eapply PBin; [eapply PVarL; reflexivity|eapply PNum|reflexivity].
     + eapply PBLast. eapply PSExpr. eapply PUn; [intros ? ?; discriminate|eapply PVarG; reflexivity|reflexivity].
@@ -275,15 +276,15 @@ Proof.
   eexists _, _. split.
   { eapply XBCons; [eapply XSLocal; [discriminate|eapply XCode|split; discriminate]|].
     eapply XBCons.
-    - eapply XSAssign; [discriminate| |].
-      + eapply XCallB; [reflexivity|eapply XPure; eapply PNum|split; discriminate|eapply XVarL; [reflexivity|reflexivity|split; discriminate]|].
+    - eapply XSAssign; [discriminate|reflexivity| |].
+      + eapply XCallB; [reflexivity|eapply XPure; eapply PNum|split; discriminate|eapply XVarL; [reflexivity|reflexivity|reflexivity|split; discriminate]|].
         eapply XBLast. eapply XSExprV. eapply XPure. eapply PBin; [eapply PVarL; reflexivity|eapply PNum|reflexivity].
       + split; discriminate.
     - eapply XBLast. eapply XSExprV.
       eapply (XThenElse _ _ _ _ true); [reflexivity| | |].
       + eapply XIf; [reflexivity|intros ? ?; discriminate|]. eapply XPure. eapply PBin; [eapply PVarG; reflexivity|eapply PNum|reflexivity].
       + eapply XElse; [reflexivity|eapply XCode|eapply XCode].
-      + eapply XBCons; [eapply XSAssign; [discriminate|eapply XPure; eapply PNum|split; discriminate]|].
+      + eapply XBCons; [eapply XSAssign; [discriminate|reflexivity|eapply XPure; eapply PNum|split; discriminate]|].
         eapply XBLast. eapply XSExprV. eapply XPure. eapply PVarG; reflexivity. }
   reflexivity.
 Qed.
@@ -358,7 +359,7 @@ Example exit_inhabited : exists v s', zev init_state ex_exit v s' /\ v = RNum 11
 Proof.
   eexists _, _. split.
   { eapply ZCallU; [reflexivity|intros ? ?; discriminate|eapply ZCode|].
-    eapply ZBCons; [eapply ZSAssign; [discriminate|eapply ZPure; eapply PNum|split; discriminate]|].
+    eapply ZBCons; [eapply ZSAssign; [discriminate|reflexivity|eapply ZPure; eapply PNum|split; discriminate]|].
     eapply ZBExit; [reflexivity| | |].
     - eapply ZIf; [reflexivity|intros ? ?; discriminate|]. eapply ZPure. eapply PBin; [eapply PVarG; reflexivity|eapply PNum|reflexivity].
     - eapply ZCode.
@@ -399,13 +400,13 @@ Proof.
     - eexists _, _. split; [reflexivity|]. right. eexists. reflexivity.
     - eapply ZPure. eapply PArr. eapply PCons; [eapply PNum|]. eapply PCons; [eapply PNum|]. eapply PCons; [eapply PNum|eapply PNil].
     - eapply ZIterCons; [eapply ZBCons;
-          [eapply ZSAssign; [discriminate|eapply ZPure; eapply PBin; [eapply PVarG; reflexivity|eapply PVarL; reflexivity|reflexivity]|split; discriminate]
+          [eapply ZSAssign; [discriminate|reflexivity|eapply ZPure; eapply PBin; [eapply PVarG; reflexivity|eapply PVarL; reflexivity|reflexivity]|split; discriminate]
           |eapply ZBLast; eapply ZSExprV; eapply ZExitSkip; [reflexivity| |eapply ZCode];
            eapply ZIf; [reflexivity|intros ? ?; discriminate|]; eapply ZPure; eapply PBin; [eapply PVarL; reflexivity|eapply PNum|reflexivity]]
         | reflexivity | exact I |].
       eapply ZIterExit.
         eapply ZBCons.
-        * eapply ZSAssign; [discriminate|eapply ZPure; eapply PBin; [eapply PVarG; reflexivity|eapply PVarL; reflexivity|reflexivity]|split; discriminate].
+        * eapply ZSAssign; [discriminate|reflexivity|eapply ZPure; eapply PBin; [eapply PVarG; reflexivity|eapply PVarL; reflexivity|reflexivity]|split; discriminate].
         * eapply ZBExit; [reflexivity| |eapply ZCode|].
           -- eapply ZIf; [reflexivity|intros ? ?; discriminate|]. eapply ZPure. eapply PBin; [eapply PVarL; reflexivity|eapply PNum|reflexivity].
           -- eapply ZBLast. eapply ZSExprV. eapply ZPure. eapply PVarG; reflexivity. }
@@ -465,12 +466,12 @@ Proof.
       reflexivity.
     - reflexivity.
     - eexists _, _. split; [reflexivity|]. right. eexists. reflexivity.
-    - eapply ZForRound; [eapply ZBLast; eapply ZSAssign; [discriminate|eapply ZPure; eapply PBin; [eapply PVarG; reflexivity|eapply PVarL; reflexivity|reflexivity]|split; discriminate]
-                        |reflexivity|reflexivity|].
-      eapply ZForRound; [eapply ZBLast; eapply ZSAssign; [discriminate|eapply ZPure; eapply PBin; [eapply PVarG; reflexivity|eapply PVarL; reflexivity|reflexivity]|split; discriminate]
-                        |reflexivity|reflexivity|].
-      eapply ZForLast; [eapply ZBLast; eapply ZSAssign; [discriminate|eapply ZPure; eapply PBin; [eapply PVarG; reflexivity|eapply PVarL; reflexivity|reflexivity]|split; discriminate]
-                       |reflexivity|reflexivity]. }
+    - eapply ZForRound; [eapply ZBLast; eapply ZSAssign; [discriminate|reflexivity|eapply ZPure; eapply PBin; [eapply PVarG; reflexivity|eapply PVarL; reflexivity|reflexivity]|split; discriminate]
+                        |reflexivity|reflexivity|reflexivity|].
+      eapply ZForRound; [eapply ZBLast; eapply ZSAssign; [discriminate|reflexivity|eapply ZPure; eapply PBin; [eapply PVarG; reflexivity|eapply PVarL; reflexivity|reflexivity]|split; discriminate]
+                        |reflexivity|reflexivity|reflexivity|].
+      eapply ZForLast; [eapply ZBLast; eapply ZSAssign; [discriminate|reflexivity|eapply ZPure; eapply PBin; [eapply PVarG; reflexivity|eapply PVarL; reflexivity|reflexivity]|split; discriminate]
+                       |reflexivity|reflexivity|reflexivity]. }
   reflexivity.
 Qed.
 
@@ -505,11 +506,11 @@ Proof.
     - eexists _, _. split; [reflexivity|]. right. eexists. reflexivity.
     - eexists _, _. split; [reflexivity|]. right. eexists. reflexivity.
     - eapply ZWhileRound; [eapply ZBLast; eapply ZSExprV; eapply ZPure; eapply PBin; [eapply PVarG; reflexivity|eapply PNum|reflexivity]
-                          |eapply ZBLast; eapply ZSAssign; [discriminate|eapply ZPure; eapply PBin; [eapply PVarG; reflexivity|eapply PNum|reflexivity]|split; discriminate]|].
+                          |eapply ZBLast; eapply ZSAssign; [discriminate|reflexivity|eapply ZPure; eapply PBin; [eapply PVarG; reflexivity|eapply PNum|reflexivity]|split; discriminate]|].
       eapply ZWhileRound; [eapply ZBLast; eapply ZSExprV; eapply ZPure; eapply PBin; [eapply PVarG; reflexivity|eapply PNum|reflexivity]
-                          |eapply ZBLast; eapply ZSAssign; [discriminate|eapply ZPure; eapply PBin; [eapply PVarG; reflexivity|eapply PNum|reflexivity]|split; discriminate]|].
+                          |eapply ZBLast; eapply ZSAssign; [discriminate|reflexivity|eapply ZPure; eapply PBin; [eapply PVarG; reflexivity|eapply PNum|reflexivity]|split; discriminate]|].
       eapply ZWhileRound; [eapply ZBLast; eapply ZSExprV; eapply ZPure; eapply PBin; [eapply PVarG; reflexivity|eapply PNum|reflexivity]
-                          |eapply ZBLast; eapply ZSAssign; [discriminate|eapply ZPure; eapply PBin; [eapply PVarG; reflexivity|eapply PNum|reflexivity]|split; discriminate]|].
+                          |eapply ZBLast; eapply ZSAssign; [discriminate|reflexivity|eapply ZPure; eapply PBin; [eapply PVarG; reflexivity|eapply PNum|reflexivity]|split; discriminate]|].
       eapply ZWhileStop. eapply ZBLast; eapply ZSExprV; eapply ZPure; eapply PBin; [eapply PVarG; reflexivity|eapply PNum|reflexivity]. }
   reflexivity.
 Qed.
@@ -542,17 +543,17 @@ Definition ex_loop_prog : list stmt :=
 Example program_inhabited : exists s', zprog init_state RNone ex_loop_prog (RNum 3) s' /\ glob_of s' "i" = Some (RNum 3).
 Proof.
   eexists. split.
-  { eapply ZPCons; [eapply ZSAssign; [discriminate|eapply ZPure; eapply PNum|split; discriminate]|].
+  { eapply ZPCons; [eapply ZSAssign; [discriminate|reflexivity|eapply ZPure; eapply PNum|split; discriminate]|].
     eapply ZPCons.
     - eapply ZSExprV. eapply ZWhileLoop; [reflexivity|eapply ZWhileVal; [reflexivity|intros ? ?; discriminate|eapply ZCode]|eapply ZCode| | |].
       + eexists _, _. split; [reflexivity|]. right. eexists. reflexivity.
       + eexists _, _. split; [reflexivity|]. right. eexists. reflexivity.
       + eapply ZWhileRound; [eapply ZBLast; eapply ZSExprV; eapply ZPure; eapply PBin; [eapply PVarG; reflexivity|eapply PNum|reflexivity]
-                            |eapply ZBLast; eapply ZSAssign; [discriminate|eapply ZPure; eapply PBin; [eapply PVarG; reflexivity|eapply PNum|reflexivity]|split; discriminate]|].
+                            |eapply ZBLast; eapply ZSAssign; [discriminate|reflexivity|eapply ZPure; eapply PBin; [eapply PVarG; reflexivity|eapply PNum|reflexivity]|split; discriminate]|].
         eapply ZWhileRound; [eapply ZBLast; eapply ZSExprV; eapply ZPure; eapply PBin; [eapply PVarG; reflexivity|eapply PNum|reflexivity]
-                            |eapply ZBLast; eapply ZSAssign; [discriminate|eapply ZPure; eapply PBin; [eapply PVarG; reflexivity|eapply PNum|reflexivity]|split; discriminate]|].
+                            |eapply ZBLast; eapply ZSAssign; [discriminate|reflexivity|eapply ZPure; eapply PBin; [eapply PVarG; reflexivity|eapply PNum|reflexivity]|split; discriminate]|].
         eapply ZWhileRound; [eapply ZBLast; eapply ZSExprV; eapply ZPure; eapply PBin; [eapply PVarG; reflexivity|eapply PNum|reflexivity]
-                            |eapply ZBLast; eapply ZSAssign; [discriminate|eapply ZPure; eapply PBin; [eapply PVarG; reflexivity|eapply PNum|reflexivity]|split; discriminate]|].
+                            |eapply ZBLast; eapply ZSAssign; [discriminate|reflexivity|eapply ZPure; eapply PBin; [eapply PVarG; reflexivity|eapply PNum|reflexivity]|split; discriminate]|].
         eapply ZWhileStop. eapply ZBLast; eapply ZSExprV; eapply ZPure; eapply PBin; [eapply PVarG; reflexivity|eapply PNum|reflexivity].
     - eapply ZPLast. eapply ZSExprV. eapply ZPure. eapply PVarG; reflexivity. }
   reflexivity.
@@ -595,7 +596,7 @@ Example root_exit_inhabited : exists s', zblock init_state RNone ex_root_exit (B
   root_value (BExit (RNum 11)) = [VNum 11].
 Proof.
   eexists. split.
-  { eapply ZBCons; [eapply ZSAssign; [discriminate|eapply ZPure; eapply PNum|split; discriminate]|].
+  { eapply ZBCons; [eapply ZSAssign; [discriminate|reflexivity|eapply ZPure; eapply PNum|split; discriminate]|].
     change (BExit (RNum 11)) with (BExit (val_of (BNorm (RNum 11)))).
     eapply ZBExit; [reflexivity| | |].
     - eapply ZIf; [reflexivity|intros ? ?; discriminate|]. eapply ZPure. eapply PBin; [eapply PVarG; reflexivity|eapply PNum|reflexivity].
@@ -627,19 +628,19 @@ Definition ex_trace_prog : list stmt :=
 Example trace_inhabited : exists s', zprog init_state RNone ex_trace_prog RNil s' /\ st_trace s' = ["2"; "1"; "0"].
 Proof.
   eexists. split.
-  { eapply ZPCons; [eapply ZSAssign; [discriminate|eapply ZPure; eapply PNum|split; discriminate]|].
+  { eapply ZPCons; [eapply ZSAssign; [discriminate|reflexivity|eapply ZPure; eapply PNum|split; discriminate]|].
     eapply ZPLast. eapply ZSExprV. eapply ZWhileLoop; [reflexivity|eapply ZWhileVal; [reflexivity|intros ? ?; discriminate|eapply ZCode]|eapply ZCode| | |].
     - eexists _, _. split; [reflexivity|]. right. eexists. reflexivity.
     - eexists _, _. split; [reflexivity|]. right. eexists. reflexivity.
     - eapply ZWhileRound; [eapply ZBLast; eapply ZSExprV; eapply ZPure; eapply PBin; [eapply PVarG; reflexivity|eapply PNum|reflexivity]
                           |eapply ZBCons; [eapply ZSExprV; eapply ZDiag; [reflexivity|intros ? ?; discriminate|eapply ZPure; eapply PVarG; reflexivity|split; discriminate|reflexivity]|];
-                           eapply ZBLast; eapply ZSAssign; [discriminate|eapply ZPure; eapply PBin; [eapply PVarG; reflexivity|eapply PNum|reflexivity]|split; discriminate]|].
+                           eapply ZBLast; eapply ZSAssign; [discriminate|reflexivity|eapply ZPure; eapply PBin; [eapply PVarG; reflexivity|eapply PNum|reflexivity]|split; discriminate]|].
       eapply ZWhileRound; [eapply ZBLast; eapply ZSExprV; eapply ZPure; eapply PBin; [eapply PVarG; reflexivity|eapply PNum|reflexivity]
                           |eapply ZBCons; [eapply ZSExprV; eapply ZDiag; [reflexivity|intros ? ?; discriminate|eapply ZPure; eapply PVarG; reflexivity|split; discriminate|reflexivity]|];
-                           eapply ZBLast; eapply ZSAssign; [discriminate|eapply ZPure; eapply PBin; [eapply PVarG; reflexivity|eapply PNum|reflexivity]|split; discriminate]|].
+                           eapply ZBLast; eapply ZSAssign; [discriminate|reflexivity|eapply ZPure; eapply PBin; [eapply PVarG; reflexivity|eapply PNum|reflexivity]|split; discriminate]|].
       eapply ZWhileRound; [eapply ZBLast; eapply ZSExprV; eapply ZPure; eapply PBin; [eapply PVarG; reflexivity|eapply PNum|reflexivity]
                           |eapply ZBCons; [eapply ZSExprV; eapply ZDiag; [reflexivity|intros ? ?; discriminate|eapply ZPure; eapply PVarG; reflexivity|split; discriminate|reflexivity]|];
-                           eapply ZBLast; eapply ZSAssign; [discriminate|eapply ZPure; eapply PBin; [eapply PVarG; reflexivity|eapply PNum|reflexivity]|split; discriminate]|].
+                           eapply ZBLast; eapply ZSAssign; [discriminate|reflexivity|eapply ZPure; eapply PBin; [eapply PVarG; reflexivity|eapply PNum|reflexivity]|split; discriminate]|].
       eapply ZWhileStop. eapply ZBLast; eapply ZSExprV; eapply ZPure; eapply PBin; [eapply PVarG; reflexivity|eapply PNum|reflexivity]. }
   reflexivity.
 Qed.
@@ -654,7 +655,7 @@ Proof.
   { eapply ZPCons.
     - eapply ZSExprV. change RNil with (val_of (BNorm RNil)).
       eapply ZWithDo; [reflexivity|eapply ZWithVal; [reflexivity|intros ? ?; discriminate|eapply ZNsNular; reflexivity]|eapply ZCode|].
-      eapply ZBLast. eapply ZSAssign; [discriminate|eapply ZPure; eapply PNum|split; discriminate].
+      eapply ZBLast. eapply ZSAssign; [discriminate|reflexivity|eapply ZPure; eapply PNum|split; discriminate].
     - eapply ZPLast. eapply ZSExprV.
       eapply ZBin.
       { eapply ZUn; [intros ? ?; discriminate| |].
@@ -708,7 +709,7 @@ Proof.
   eexists. split.
   { eapply ZPCons.
     - eapply ZSAssign.
-      { discriminate. }
+      { discriminate. } { reflexivity. }
       { eapply ZCatchThrow; [reflexivity|eapply ZTryVal; [reflexivity|intros ? ?; discriminate|eapply ZCode]|eapply ZCode| |].
         - eapply ZTCons.
           + eapply ZSExprV. eapply ZDiag; [reflexivity|intros ? ?; discriminate|eapply ZPure; eapply PStr|split; discriminate|reflexivity].
@@ -801,7 +802,7 @@ Proof.
   eexists. split.
   { eapply ZPCons.
     - eapply ZSAssign.
-      { discriminate. }
+      { discriminate. } { reflexivity. }
       { eapply ZCallBreak; [reflexivity|intros ? ?; discriminate|eapply ZCode| |].
         - eapply ZKCons.
           + eapply ZSExprV. eapply ZScopeName; [reflexivity|intros ? ?; discriminate|eapply ZPure; eapply PStr|reflexivity|reflexivity].
@@ -815,6 +816,75 @@ Proof.
                 - discriminate. }
               { discriminate. }
         - reflexivity. }
+      { split; discriminate. }
+    - eapply ZPLast. eapply ZSExprV. eapply ZPure. eapply PVarG; reflexivity. }
+  reflexivity.
+Qed.
+
+(* ---- switch - case - default (VM/SimSwitchOps.v; relation zswitch and the constructors ZSwitchVal / ZSwitchNone / ZSwitchRun of
+   VM/SimExit.v).  The statements of a switch body - labels `case x;` (fall-through), `case x : {..}`, `default {..}`, the case values
+   pure expressions - are judged against the bookkeeping of the reference semantics (RefSem.swst): the first case that matches, or
+   that stands behind a matching label, wins and the rest of the body is skipped; default offers its block when nothing was chosen.
+   The machine keeps that bookkeeping in the hidden variable ___switch of the switch frame - which is why the frames Match the
+   reference scopes on every name but that one, and why a program's own variables must not carry it (premise `hidden` of the
+   variable rules).  C02_switch_body_vm: from any statement boundary of the body the machine's hidden variable follows the
+   reference bookkeeping statement by statement, and the frame ends at the end of its code - behind it when a case was chosen.
+   The construct itself: with no block chosen it yields nil; otherwise the chosen block's instructions are exchanged into the
+   frame and its value is the value of the construct (the block starts with a push or a variable read and is not left by exitWith). *)
+Theorem C02_switch_body_ref : forall s body sw sw', zswitch s body sw sw' ->
+  exists f0, forall f, f0 <= f -> eval_switch_body f s body sw = (ONormal RNil, s, sw').
+Proof. exact switch_body_ref. Qed.
+Print Assumptions C02_switch_body_ref.
+Theorem C02_switch_body_vm : forall s body sw sw', zswitch s body sw sw' ->
+  forall r c f rest below pre (first:bool), Mach s r c f rest -> length below = f_base f -> Fresh c below ->
+    f_code f = pre ++ compile_block_from first body -> f_pos f = length pre -> SwInv sw f ->
+    exists r' c' f', Steps r r' /\ Mach s r' c' f' rest /\ Fresh c' below /\
+      (body <> [] -> exists t, c_values c' = VNil :: t ++ below) /\ (body = [] -> c_values c' = c_values c) /\
+      moved f f' /\ SwInv sw' f' /\ (f_pos f' = length (f_code f') \/ f_pos f' = S (length (f_code f'))).
+Proof. exact switch_body_vm. Qed.
+Print Assumptions C02_switch_body_vm.
+(* x = 2; r = switch x do { case 1; case 2 : { diag_log "two"; "a" }; case 2 : { "again" }; default { "d" } }; r   yields "a" and logs
+   two: the label `case 1` does not match, `case 2` does and wins, the second `case 2` and the default are skipped;
+   and with x = 7 the default block runs *)
+Definition ex_switch_body : list stmt :=
+  [SExpr (EUnary "case" (ENum 1));
+   SExpr (EBinary ":" (EUnary "case" (ENum 2)) (ECode [SExpr (EUnary "diag_log" (EStr "two")); SExpr (EStr "a")]));
+   SExpr (EBinary ":" (EUnary "case" (ENum 2)) (ECode [SExpr (EStr "again")]));
+   SExpr (EUnary "default" (ECode [SExpr (EStr "d")]))].
+Definition ex_switch_prog (x:Z) : list stmt :=
+  [SAssign "x" (ENum x); SAssign "r" (EBinary "do" (EUnary "switch" (EVar "x")) (ECode ex_switch_body)); SExpr (EVar "r")].
+Example switch_inhabited : exists s', zprog init_state RNone (ex_switch_prog 2) (RStr "a") s' /\ st_trace s' = ["two"].
+Proof.
+  eexists. split.
+  { eapply ZPCons; [eapply ZSAssign; [discriminate|reflexivity|eapply ZPure; eapply PNum|split; discriminate]|].
+    eapply ZPCons.
+    - eapply ZSAssign.
+      { discriminate. } { reflexivity. }
+      { change (RStr "a") with (res_of (RStr "a")).
+        eapply ZSwitchRun; [reflexivity|eapply ZSwitchVal; [reflexivity|intros ? ?; discriminate|eapply ZPure; eapply PVarG; reflexivity|split; discriminate]|eapply ZCode| | | |].
+        - eapply ZWLabel; [reflexivity|eapply PNum|]. eapply ZWCaseHit; [reflexivity|reflexivity|eapply PNum|reflexivity].
+        - reflexivity.
+        - eexists _, _. split; [reflexivity|]. left. eexists. reflexivity.
+        - eapply ZBCons; [eapply ZSExprV; eapply ZDiag; [reflexivity|intros ? ?; discriminate|eapply ZPure; eapply PStr|split; discriminate|reflexivity]|].
+          eapply ZBLast. eapply ZSExprV. eapply ZPure. eapply PStr. }
+      { split; discriminate. }
+    - eapply ZPLast. eapply ZSExprV. eapply ZPure. eapply PVarG; reflexivity. }
+  reflexivity.
+Qed.
+Example switch_default_inhabited : exists s', zprog init_state RNone (ex_switch_prog 7) (RStr "d") s' /\ st_trace s' = [].
+Proof.
+  eexists. split.
+  { eapply ZPCons; [eapply ZSAssign; [discriminate|reflexivity|eapply ZPure; eapply PNum|split; discriminate]|].
+    eapply ZPCons.
+    - eapply ZSAssign.
+      { discriminate. } { reflexivity. }
+      { change (RStr "d") with (res_of (RStr "d")).
+        eapply ZSwitchRun; [reflexivity|eapply ZSwitchVal; [reflexivity|intros ? ?; discriminate|eapply ZPure; eapply PVarG; reflexivity|split; discriminate]|eapply ZCode| | | |].
+        - eapply ZWLabel; [reflexivity|eapply PNum|]. eapply ZWCaseSkip; [reflexivity|reflexivity|eapply PNum|reflexivity|].
+          eapply ZWCaseSkip; [reflexivity|reflexivity|eapply PNum|reflexivity|]. eapply ZWDefault; [reflexivity|]. eapply ZWNil.
+        - reflexivity.
+        - eexists _, _. split; [reflexivity|]. left. eexists. reflexivity.
+        - eapply ZBLast. eapply ZSExprV. eapply ZPure. eapply PStr. }
       { split; discriminate. }
     - eapply ZPLast. eapply ZSExprV. eapply ZPure. eapply PVarG; reflexivity. }
   reflexivity.
